@@ -69,7 +69,7 @@ func (e *OpEngine) RunProgram(p *Program, st *WalkStats) {
 	}
 	key := "gradtrack.BackPropagate"
 	dims := []sym.Poly{sym.PAtom("d0")}
-	_, err := e.M.Explore(512, func() {
+	body := func() {
 		e.Begin()
 		sym.ActiveFacts = nil
 		e.M.Base = sizeBase(dims)
@@ -336,7 +336,14 @@ func (e *OpEngine) RunProgram(p *Program, st *WalkStats) {
 				}
 			}
 		}
-	})
+	}
+	_, err := e.M.Explore(512, body)
+	if err != nil {
+		err = e.concreteFallback(err, func() error {
+			_, err2 := e.M.Explore(512, body)
+			return err2
+		})
+	}
 	st.Programs++
 	if err != nil {
 		e.undecided("interp", key, "unsupported", "", fmt.Sprintf("%v in program %s", err, p.String()))
